@@ -443,7 +443,19 @@ func (w *world) fail(format string, a ...any) {
 // search sends one SEARCH, judges the answer against the oracle and records the case.
 func (w *world) search(uid bool, charset string, keys []command.SearchKey, extra ...string) outcome {
 	t := w.t
-	parts, shown := encode(t, uid, charset, keys)
+	wire := keys
+
+	if isLatin1(charset) {
+		// the strings travel in the charset the command names; the oracle judges the characters they stand for
+		l1, ok := latin1Keys(keys)
+		if !ok {
+			t.Fatalf("VERIF-INCONCLUSIVE: CHARSET ISO-8859-1 drawn for keys that Latin-1 cannot express")
+		}
+
+		wire = l1
+	}
+
+	parts, shown := encode(t, uid, charset, wire)
 
 	e := newEvaluator(w.v)
 	want := e.verdicts(keys)
@@ -475,6 +487,10 @@ func (w *world) search(uid bool, charset string, keys []command.SearchKey, extra
 		labels = append(labels, "flavour:uid")
 	} else {
 		labels = append(labels, "flavour:seq")
+	}
+
+	if isLatin1(charset) && hasEightBit(keys) {
+		labels = append(labels, "charset:iso-8859-1 with 8-bit strings")
 	}
 
 	if charset == "" {
